@@ -19,14 +19,10 @@ Section GateProofs.
 
   (* ---- fit ---- *)
 
-  (* refitting an hourly object that came from from_json is the one place where the coded fit breaks
-     (known finding C04-K1); every fit theorem excludes it explicitly *)
-  Definition refit_of_reloaded_hourly (f : family) (s : mstate) : bool := family_eqb f Hourly && m_reloaded s.
-
-  Lemma fit_err_keeps_state : forall f s d i e, refit_of_reloaded_hourly f s = false ->
+  Lemma fit_err_keeps_state : forall f s d i e,
     snd (fit poor f s d i) = Err e -> fst (fit poor f s d i) = s.
   Proof.
-    intros f s d i e Hr. unfold fit. unfold refit_of_reloaded_hourly in Hr. rewrite Hr.
+    intros f s d i e. unfold fit.
     destruct (negb (is_baseline_of f (d_kind d))); [reflexivity|].
     destruct (nonempty (d_dq d) && negb i); [reflexivity|].
     destruct (family_eqb f Hourly && m_ghi s && negb (d_ghi d)); [reflexivity|].
@@ -40,16 +36,15 @@ Section GateProofs.
     destruct (negb (is_baseline_of f (d_kind d))); [left; reflexivity|].
     destruct (nonempty (d_dq d) && negb i); [left; reflexivity|].
     destruct (family_eqb f Hourly && m_ghi s && negb (d_ghi d)); [left; reflexivity|].
-    destruct (family_eqb f Hourly && m_reloaded s); [right; reflexivity|].
     cbn. discriminate.
   Qed.
 
-  Lemma fit_gate_l : forall f s d i, refit_of_reloaded_hourly f s = false -> is_baseline_of f (d_kind d) = true ->
+  Lemma fit_gate_l : forall f s d i, is_baseline_of f (d_kind d) = true ->
     (snd (fit poor f s d i) = Err DataSufficiency <-> (d_dq d <> [] /\ i = false)) /\
     (snd (fit poor f s d i) = Fitted \/ snd (fit poor f s d i) = Err DataSufficiency \/
      (f = Hourly /\ m_ghi s = true /\ d_ghi d = false /\ snd (fit poor f s d i) = Err ValueMissingFeature)).
   Proof.
-    intros f s d i Hr Hb. unfold fit. unfold refit_of_reloaded_hourly in Hr. rewrite Hb, Hr. cbn [negb].
+    intros f s d i Hb. unfold fit. rewrite Hb. cbn [negb].
     destruct (nonempty (d_dq d)) eqn:Hq; destruct i; cbn [negb andb].
     - apply nonempty_true in Hq.
       destruct (family_eqb f Hourly && m_ghi s && negb (d_ghi d)) eqn:Hg; cbn [snd].
@@ -86,7 +81,6 @@ Section GateProofs.
     destruct (negb (is_baseline_of f (d_kind d))); [discriminate|].
     destruct (nonempty (d_dq d) && negb i) eqn:Hq; [discriminate|].
     destruct (family_eqb f Hourly && m_ghi s && negb (d_ghi d)); [discriminate|].
-    destruct (family_eqb f Hourly && m_reloaded s); [discriminate|].
     cbn. intros _. repeat split.
     apply andb_false_iff in Hq. destruct Hq as [Hq|Hq].
     - left. apply nonempty_false. exact Hq.
